@@ -1,6 +1,9 @@
 import LicenseExpr.Props.C16
 #print axioms LE.C16_map_write
 #print axioms LE.C16_map_ignore
+#print axioms LE.C16_get
+#print axioms LE.C16_exists
+#print axioms LE.C16_read_after_write
 #print axioms LE.C16_items
 #print axioms LE.C16_frozen
 #print axioms LE.C16_fail
